@@ -121,7 +121,10 @@ def r2(ctx):
     eff = _effects(ctx, b)
     rets = b.expanded_cases(0)
     Q, q, f, p, pnl, fe, fx, t = F("Q"), sympy.Abs(F("tq")), F("f"), F("p"), F("pnl"), F("fe"), F("fx"), F("t")
-    same = ["trades.push(trade.id)", "update_price_entry_average(trade)", "self.quantity_abs := %s" % (Q + q),
+    # (the private helper that stores the new average is not named by any rule, so it is inlined: whether the average is stored by
+    #  a `&mut self` helper or computed by a query and assigned in the arm, the effect is this one store)
+    avg = "self.price_entry_average := position::calculate_price_entry_average(self.price_entry_average, self.quantity_abs, trade.price, Decimal::abs(trade.quantity))"
+    same = ["trades.push(trade.id)", avg, "self.quantity_abs := %s" % (Q + q),
             "self.pnl_realised := %s" % sympy.simplify(pnl - f), "self.fees_enter.fees := %s" % (f + fe),
             "self.time_exchange_update := t", "update_pnl_unrealised(p)"]
     reduce_ = ["trades.push(trade.id)", "update_pnl_realised(tq, p, f)", "self.quantity_abs := %s" % (Q - q),
@@ -137,7 +140,9 @@ def r2(ctx):
                 name = "%s/%s/Q %s q%s" % (sides[0], sides[1], {"gt": ">", "eq": "=", "lt": "<"}[rel], "/newmax" if newmax else "")
                 try:
                     got_e = [lab for lab, g, bi, sp in eff if table.eval_guard(g, _valuation(cell))]
-                    got_r = [render(term) for g, term, bi in rets if table.eval_guard(g, _valuation(cell))]
+                    # (the closed-position record may be built by a `From<Position>` conversion: read it at this call site)
+                    got_r = [render(common.resolve_calls(ctx, term, lambda n: "PositionExited" in n and n.endswith("::from")))
+                             for g, term, bi in rets if table.eval_guard(g, _valuation(cell))]
                 except table.UnknownAtom as ex:
                     ctx.check("Position::update_from_trade:" + name, False,
                               "the fill handling branches on a condition outside {sides, quantity relation} (fail closed)", got=str(ex), key="unknown-atom")
@@ -274,12 +279,6 @@ def r4(ctx):
         except formula.NotAFormula:
             ok = False
     ctx.check("calculate_price_entry_average", ok, "volume-weighted average (avg*Q + p*q)/(Q+q)", got=[render(t) for g, t in main], key="formula")
-    u = ctx.fibody(name="update_price_entry_average", self_adt=POS, trait="")
-    st = u.stores()
-    ok = len(st) == 1 and render(st[0][2]) == "self.price_entry_average" and [render(x) for x in st[0][3][2]] == \
-        ["self.price_entry_average", "self.quantity_abs", "trade.price", "Decimal::abs(trade.quantity)"] and \
-        mir.short(st[0][3][1]) == "position::calculate_price_entry_average"
-    ctx.check("Position::update_price_entry_average", ok, "arguments feed the parameters of the same role", got=[(render(s[2]), render(s[3])) for s in st], key="roles")
     r = ctx.fibody(name="update_pnl_realised", self_adt=POS, trait="")
     cs = [tm for bi, t, tm in r.real_calls() if tm[1] == "std::ops::AddAssign::add_assign"]
     ok = len(cs) == 1 and render(cs[0][2][0]) == "self.pnl_realised" and render(cs[0][2][1]) == \
@@ -287,7 +286,7 @@ def r4(ctx):
     ctx.check("Position::update_pnl_realised", ok, "pnl_realised += calculate_pnl_realised(side, entry, qty, price, fee)", got=[render(x) for x in cs], key="roles")
     # ordering in the increase arm: the average is updated before the quantity grows
     b = ctx.fibody(name="update_from_trade", self_adt=POS, trait="")
-    up = [bi for bi, t, tm in b.real_calls() if mir.short(tm[1]) == "Position::update_price_entry_average"]
+    up = [bi for bi, si, path, value, s_ in b.stores() if render(path) == "self.price_entry_average"]
     inc = [bi for bi, t, tm in b.real_calls() if tm[1] == "std::ops::AddAssign::add_assign" and render(tm[2][0]) == "self.quantity_abs"]
     ctx.check("Position::update_from_trade:increase", len(up) == 1 and len(inc) == 1 and b.dominates(up[0], inc[0]) and up[0] != inc[0],
               "the average entry price is recomputed with the OLD quantity (before `quantity_abs += |q|`)", got=(up, inc), key="order")
